@@ -24,6 +24,20 @@ for _n, _tiers in ((1, ('quick', 'thorough')), (2, ('quick', 'thorough')), (3, (
       stubs=[])
 
 
+# ---- C12.c accumulator address arithmetic
+for _nv in (1, 2, 3):
+    K('C12.c.%d' % _nv, property='C12', engine='symex', harness='C12/addr.cpp', entry='k_addr',
+      tus=['src/Variogram/Vario.cpp', 'src/Basic/AStringable.cpp'], defines={'all': {'VF_NVAR': _nv}},
+      bounds={'quick': '%d variable(s), every (ivar, jvar); one direction with npas any int in [1,1000]; symmetric and asymmetric storage; '
+                       'every lag rank / side / absolute lag index' % _nv},
+      timeout_ms={'quick': 60000, 'thorough': 600000}, validate={'quick': 30, 'thorough': 60},
+      what='Vario::getDirAddress (flagCheck=false), getDirSize, getLagTotalNumber, getLagNumber: slot in range, symmetric in (ivar,jvar), '
+           'relative (sens, ipas) and absolute addressing agree (signed lag h at index npas+h), (unordered pair, lag) -> slot is a bijection onto [0, getDirSize)',
+      out='flagCheck=true argument validation (copies a DirParam); several directions (each direction has its own arrays); the values stored in the slots',
+      assumptions=['Vario and DirParam objects are raw storage: _nVar, _flagAsym, _varioparam._dirparams = one DirParam with _nPas initialised'],
+      stubs=[])
+
+
 # ---------------------------------------------------------------- C12.b (builder of C12.b / C05.e: pair loops)
 # ---- C12.b pair enumeration of Vario::_calculateGeneralSolution1 / 2
 _PAIR_TUS = ['src/Variogram/Vario.cpp', 'src/Db/Db.cpp', 'src/Variogram/DirParam.cpp', 'src/Space/ASpaceObject.cpp',
